@@ -372,9 +372,22 @@ func (sc *seqCase) judgeSess(on, line string, d decision, h, ref sut.Reply, comp
 	check := func(d decision) string {
 		switch d.Kind {
 		case "deny":
-			if d.AnyText {
+			switch {
+			case d.AnyText && d.AnyCode:
 				if h.Code < 400 {
 					return fmt.Sprintf("deny() must refuse the command, got %q", h.String())
+				}
+				return ""
+			case d.AnyText:
+				// deny(code): the code is the hook's, the text is the server's default (not judged)
+				if h.Code != d.Code || len(h.Lines) != 1 || !strings.HasPrefix(h.Lines[0], fmt.Sprintf("%03d ", d.Code)) {
+					return fmt.Sprintf("deny(%d) must refuse the command with the hook's code %03d (text left to the server), got %q", d.Code, d.Code, h.String())
+				}
+				return ""
+			case d.AnyCode:
+				// deny(nil, text): the text is the hook's, the code is the server's default
+				if h.Code < 400 || len(h.Lines) != 1 || h.Lines[0] != fmt.Sprintf("%03d %s", h.Code, d.Text) {
+					return fmt.Sprintf("deny(nil, text) must refuse the command with the hook's text %q (code left to the server), got %q", d.Text, h.String())
 				}
 				return ""
 			}
@@ -443,6 +456,19 @@ func (sc *seqCase) countDecision(on string, d decision, h, ref sut.Reply) {
 		}
 	case "deny":
 		c.Count(on+":deny", 1)
+		switch {
+		case d.AnyText && !d.AnyCode:
+			// optional-argument forms, added after seeded change C17-13
+			c.Count(on+":deny-code-only", 1)
+			if d.Code != 550 {
+				c.Count("deny-code-only-not-550", 1)
+			}
+			if len(h.Lines) == 1 && len(h.Lines[0]) > 4 {
+				c.Count("deny-code-only-with-server-text", 1)
+			}
+		case d.AnyCode && !d.AnyText:
+			c.Count(on+":deny-text-only", 1)
+		}
 		if ref.Code == 250 {
 			c.Count(on+":deny-of-policy-accepted", 1)
 		}
